@@ -241,14 +241,16 @@ def gen_sampled(rng):
 
 
 def gen_clean(rng):
-    """mostly error-free: distinct names per file, some exported, uses of own and foreign names; statements are
-    shuffled in chunks so that a label keeps its local label and the use of it in its own scope"""
+    """mostly error-free: distinct names per file instance, some exported (each name by one exporter), uses of own and
+    foreign names, include trees of depth <= 3, .repeat bodies with uses; statements are shuffled in chunks so that a label
+    keeps its local label and the use of it in its own scope"""
     vs = Vals()
-    nlinked = rng.choice([2, 3])
-    pool = ["ka", "kb", "kc", "kd", "ke", "kf"]
+    nlinked = rng.choice([1, 2, 2, 3])
+    ninc = rng.choice([0, 0, 1, 2, 3])
+    pool = ["ka", "kb", "kc", "kd", "ke", "kf", "kg", "kh"]
     exported = {}
     chunks = []
-    for fi in range(nlinked):
+    for fi in range(nlinked + ninc):
         ch = []
         mine = rng.sample(pool, rng.randrange(1, 4))
         allx = rng.random() < 0.2
@@ -261,8 +263,8 @@ def gen_clean(rng):
             if rng.random() < 0.5:
                 ch.append([("assign", nm, form == "colon", vs.next())])
             else:
-                loc = rng.choice(["1$", "2$", "1"])
-                tri = [("local", loc), ("ref", loc)]
+                loc = rng.choice(["1$", "2$", "1", "1a$"])
+                tri = [("local", loc), ("ref", rng.choice([loc, loc.upper()]))]
                 rng.shuffle(tri)
                 ch.append([("label", nm, form == "colon")] + tri)
             if form == "extern":
@@ -271,18 +273,30 @@ def gen_clean(rng):
                 exported[n] = fi
         if allx:
             ch.append([("externall",)])
-        chunks.append(ch)
-    linked = []
-    for fi in range(nlinked):
-        ch = chunks[fi]
+        chunks.append((ch, mine))
+    # include tree: include j (table index) is included once, by a linked file or an include of smaller index
+    depth = {}
+    for j in range(ninc):
+        parents = list(range(nlinked)) + [nlinked + q for q in range(j) if depth.get(q, 1) < 3]
+        par = rng.choice(parents)
+        depth[j] = 1 if par < nlinked else depth[par - nlinked] + 1
+        chunks[par][0].append([("include", j)])
+    files = []
+    for fi in range(nlinked + ninc):
+        ch, mine = chunks[fi]
+        vis = sorted(set(exported) | set(mine))
         for _ in range(rng.randrange(1, 4)):
-            n = rng.choice(list(exported) or pool)
+            n = rng.choice(vis)
             ch.append([("ref", rng.choice([n, n.upper()]))])
+        if rng.random() < 0.25:
+            ch.append([("block", rng.choice([0, 1, 2, 3]), [("ref", rng.choice(vis)) for _ in range(rng.randrange(1, 3))])])
+        if rng.random() < 0.06:
+            ch.append([("ref", rng.choice(pool))])      # possibly a private name of another file: undefined
         rng.shuffle(ch)
-        # a use of a local name must stay in its label's scope: chunks are atomic, but a plain use between
-        # a label chunk's label and its local label is fine (it does not end the scope)
-        linked.append([it for c in ch for it in c])
-    return ("clean", linked, [])
+        if rng.random() < 0.05:
+            ch.append([("end",), ("ref", "nowhere"), ("assign", rng.choice(pool), True, vs.next())])
+        files.append([it for c in ch for it in c])
+    return ("clean", files[:nlinked], files[nlinked:])
 
 
 # ---------------------------------------------------------------------------------------------
@@ -307,9 +321,9 @@ def all_cases(rng, tier, scale=1):
     fams = [family_export(quick, rng), family_local(quick, rng), family_include(quick, rng)]
     for f in fams:
         cases += f
-    n = (700 if quick else 9000) * scale
+    n = (1500 if quick else 12000) * scale
     for _ in range(n):
-        cases.append(gen_sampled(rng) if rng.random() < 0.6 else gen_clean(rng))
+        cases.append(gen_sampled(rng) if rng.random() < 0.4 else gen_clean(rng))
     return cases, fams
 
 
